@@ -455,3 +455,138 @@ def chk_c16(rec, be):
                         R.bad(name, "s=%g: coincidence removed when max_tau grows %g -> %s: %s -> %s" % (
                             sg, mt / sg, mt2 / sg if mt2 else None, marks[name], marks2[name]))
     return R.result()
+
+
+# ------------------------------------------------------------------------------------- C12
+def _eq_out(g, h, xscale=1.0):
+    """two kernel outputs (tuples of arrays or a single array) agree up to rounding; nan = nan is NOT accepted"""
+    if not isinstance(g, tuple):
+        g, h = (g,), (h,)
+    if len(g) != len(h):
+        return False
+    for k, (u, v) in enumerate(zip(g, h)):
+        u, v = np.asarray(u, float), np.asarray(v, float)
+        if u.shape != v.shape:
+            return False
+        sc = xscale if k == 0 else 1.0
+        if not all(close(x, y, sc) for x, y in zip(u.ravel(), v.ravel())):
+            return False
+    return True
+
+
+def _twin(R, name, fpy, fshim, args, xscale=1.0):
+    st1, r1 = call(fpy, *args)
+    st2, r2 = call(fshim, *args)
+    R.n += 1
+    if st1 != st2:
+        R.bad(name, "python twin: %s %s; .pyx twin: %s %s" % (st1, r1 if st1 != "ok" else "", st2, r2 if st2 != "ok" else ""))
+        return None, None
+    if st1 != "ok":
+        if st2 == "exc" and str(r2).startswith("COutOfBounds"):
+            R.bad(name, ".pyx twin accesses memory out of bounds: %s" % r2)
+        return None, None
+    if not _eq_out(r1, r2, xscale):
+        R.bad(name, "python twin returns %s, .pyx twin returns %s" % (
+            [fl(np.asarray(x, float).ravel()) for x in (r1 if isinstance(r1, tuple) else (r1,))],
+            [fl(np.asarray(x, float).ravel()) for x in (r2 if isinstance(r2, tuple) else (r2,))]))
+    return r1, r2
+
+
+@checker("twin_isi")
+def chk_twin_isi(rec, be):
+    R = Runner(dict(rec, mtau=[0, 1]), "py=pyx")
+    a, b, ts, te = rec["a"], rec["b"], rec["ts"], rec["te"]
+    m = float(fr(rec["mrts"]))
+    for sg in (1.0, 2.0 ** -10):
+        args = (nonempty(a, ts, te, sg), nonempty(b, ts, te, sg), ts * sg, te * sg, m * sg)
+        r1, r2 = _twin(R, "isi_profile s=%g" % sg, PB.isi_distance_python, shim("cython_profiles", "isi_profile_cython"), args, sg)
+        if r1 is None:
+            continue
+        x, y = np.asarray(r1[0], float), np.asarray(r1[1], float)
+        avg = float(np.sum((x[1:] - x[:-1]) * y) / (x[-1] - x[0]))
+        st, v = call(shim("cython_distances", "isi_distance_cython"), *args)
+        R.n += 1
+        if st != "ok":
+            R.bad("isi_distance_cython s=%g" % sg, "raised %s" % v)
+        elif not close(v, avg):
+            R.bad("isi_distance_cython s=%g" % sg, "single-pass distance %r, average of the profile %r" % (v, avg), float(v), avg)
+    return R.result()
+
+
+@checker("twin_spike")
+def chk_twin_spike(rec, be):
+    R = Runner(dict(rec, mtau=[0, 1]), "py=pyx")
+    a, b, ts, te = rec["a"], rec["b"], rec["ts"], rec["te"]
+    m = float(fr(rec["mrts"]))
+    ri = bool(rec["ri"])
+    for sg in (1.0, 2.0 ** -10):
+        args = (nonempty(a, ts, te, sg), nonempty(b, ts, te, sg), ts * sg, te * sg, m * sg, ri)
+        r1, r2 = _twin(R, "spike_profile s=%g" % sg, PB.spike_distance_python, shim("cython_profiles", "spike_profile_cython"), args, sg)
+        if r1 is None:
+            continue
+        x, y1, y2 = (np.asarray(v, float) for v in r1)
+        avg = float(np.sum((x[1:] - x[:-1]) * 0.5 * (y1 + y2)) / (x[-1] - x[0]))
+        st, v = call(shim("cython_distances", "spike_distance_cython"), *args)
+        R.n += 1
+        if st != "ok":
+            R.bad("spike_distance_cython s=%g" % sg, "raised %s" % v)
+        elif not close(v, avg):
+            R.bad("spike_distance_cython s=%g" % sg, "single-pass distance %r, average of the profile %r" % (v, avg), float(v), avg)
+    return R.result()
+
+
+@checker("twin_sync")
+def chk_twin_sync(rec, be):
+    R = Runner(dict(rec, ri=None), "py=pyx")
+    a, b, ts, te = rec["a"], rec["b"], rec["ts"], rec["te"]
+    m = float(fr(rec["mrts"]))
+    mt = float(fr(rec["mtau"]))
+    for sg in (1.0, 2.0 ** 10):
+        A, B = arr(a, sg), arr(b, sg)
+        args = (A, B, ts * sg, te * sg, mt * sg, m * sg)
+        r1, _ = _twin(R, "coincidence_profile s=%g" % sg, PB.coincidence_python, shim("cython_profiles", "coincidence_profile_cython"), args, sg)
+        _twin(R, "coincidence_single_profile s=%g" % sg, PB.coincidence_single_python, shim("cython_profiles", "coincidence_single_profile_cython"), args)
+        _twin(R, "coincidence_single_profile(b,a) s=%g" % sg, PB.coincidence_single_python, shim("cython_profiles", "coincidence_single_profile_cython"),
+              (B, A) + args[2:])
+        o1, _ = _twin(R, "spike_train_order_profile s=%g" % sg, DPB.spike_train_order_profile_python,
+                      shim("cython_directionality", "spike_train_order_profile_cython"), args, sg)
+        d1, _ = _twin(R, "spike_directionality_profiles s=%g" % sg, DPB.spike_directionality_profile_python,
+                      shim("cython_directionality", "spike_directionality_profiles_cython"), args)
+        # single-pass value routines agree with the sums over the corresponding profile
+        if r1 is not None:
+            c, mp = np.asarray(r1[1], float), np.asarray(r1[2], float)
+            e = (float(np.sum(c[1:-1])), float(np.sum(mp[1:-1])))
+            st, v = call(shim("cython_distances", "coincidence_value_cython"), *args)
+            R.n += 1
+            if st != "ok":
+                R.bad("coincidence_value_cython s=%g" % sg, "raised %s" % v)
+            elif not (close(v[0], e[0]) and close(v[1], e[1])):
+                R.bad("coincidence_value_cython s=%g" % sg, "single-pass (c, mp) = %s, sums over the profile %s" % (fl(v), e))
+        if o1 is not None:
+            c, mp = np.asarray(o1[1], float), np.asarray(o1[2], float)
+            e = (float(np.sum(c[1:-1])), float(np.sum(mp[1:-1])))
+            st, v = call(shim("cython_directionality", "spike_train_order_cython"), *args)
+            R.n += 1
+            if st != "ok":
+                R.bad("spike_train_order_cython s=%g" % sg, "raised %s" % v)
+            elif not (close(v[0], e[0]) and close(v[1], e[1])):
+                R.bad("spike_train_order_cython s=%g" % sg, "single-pass (c, mp) = %s, sums over the profile %s" % (fl(v), e))
+        if d1 is not None:
+            e = float(np.sum(np.asarray(d1[0], float)))
+            st, v = call(shim("cython_directionality", "spike_directionality_cython"), *args)
+            R.n += 1
+            if st != "ok":
+                R.bad("spike_directionality_cython s=%g" % sg, "raised %s" % v)
+            elif not close(v, e):
+                R.bad("spike_directionality_cython s=%g" % sg, "single-pass value %r, sum of the profile %r" % (v, e))
+        # the coincidence window itself, for every index pair the scans can ask for
+        tm = (te - ts) * sg
+        if mt > 0:
+            tm = min(tm, 2 * mt * sg)
+        gt = shim("cython_get_tau", "get_tau")
+        for i in range(-1, len(a)):
+            for j in range(-1, len(b)):
+                if i < 0 and j < 0:
+                    continue
+                _twin(R, "get_tau(i=%d,j=%d) s=%g" % (i, j, sg), PB.get_tau, gt, (A, B, i, j, tm, m * sg))
+    return R.result()
